@@ -150,6 +150,7 @@ func genC15(t *simrt.Tape, tier string) Scenario {
 		// the finishing coroutine is the one the user goroutines call YieldFrom ON (as requester,
 		// towards a live server coroutine), not the target of their requests
 		sc.CorRequester = !crowd && t.Bool(1, 3)
+		sc.HookSize = t.Choose(2) // (cor kind: 1 = the target is started with StartWithVal)
 	}
 	sc.CloseDelay = t.Choose(12)
 	if t.Bool(1, 4) {
@@ -467,6 +468,14 @@ func (sc *c15Scenario) runCor(s *simrt.Sim) {
 		}
 		// returning completes the coroutine: this is the "close" of this kind
 	})
+	if sc.HookSize%2 == 1 {
+		// The target is started with a value, before any caller exists (StartWithVal queues its value like a
+		// request and only then starts the coroutine: with five requests already queued by early callers it would
+		// wait for room that only the not-yet-started coroutine can make - a start-up matter outside this property).
+		// When the target serves nothing, that value is still pending at completion.
+		target.StartWithVal(424242)
+		sc.probes["cor-target-started-with-a-value"]++
+	}
 	var ths []*simrt.Thread
 	callersDone := 0
 	for u, ops := range sc.Users {
